@@ -8,6 +8,7 @@ ROOT = os.path.dirname(HARNESS)
 sys.path.insert(0, HARNESS)
 import build  # noqa: E402
 from lib import modelproc  # noqa: E402
+from lib.wire import enc as wire_enc  # noqa: E402
 
 GENERAL_TRUSTED = [
     'Coq 8.16.1 kernel (coqc); vm_compute used in reflection lemmas and witnesses; no native_compute',
@@ -39,6 +40,7 @@ class Ctx:
         self.exhaustive = False
         self.model_calls = 0
         self.known_counts = {}
+        self.xsamples = []
         self.findings, self.classes = [], {}
         self.model_broken = None if b['model_ok'] else 'model binary did not build'
 
@@ -52,6 +54,11 @@ class Ctx:
             self.model_broken = 'modelrun failed: %s' % e
             return [None] * len(cases)
         self.model_calls += len(cases)
+        if len(self.xsamples) < 240:
+            step = max(1, len(cases) // 40)
+            for c, o in list(zip(cases, out))[::step][:40]:
+                if o is not None and not (isinstance(o, tuple) and o and o[0] == '!error') and len(wire_enc(c)) < 4000:
+                    self.xsamples.append((c, o))
         return out
 
     # -- bookkeeping --------------------------------------------------
@@ -109,6 +116,60 @@ def write_json(path, obj):
         json.dump(obj, f, indent=1, ensure_ascii=True, default=repr)
         f.write('\n')
     os.replace(tmp, path)
+
+
+def to_coq(v):
+    """decoded wire value (nested lists of ints) -> Coq term of type Base.Wire.value"""
+    if isinstance(v, bool):
+        v = int(v)
+    if isinstance(v, int):
+        return '(I (%d)%%Z)' % v
+    return '(L [' + '; '.join(to_coq(x) for x in v) + '])'
+
+
+def thorough_checks(pid, ctx):
+    """thorough tier: (1) evaluate a sample of the cases inside Coq with vm_compute and compare with what the
+    extracted binary answered (guards extraction + OCaml glue); (2) coqchk -o on the property theorems"""
+    import subprocess
+    from lib import wire
+    out = {'broken': []}
+    coq = os.path.join(ROOT, 'coq')
+    flags = build.coq_flags()
+    samples = ctx.xsamples[:200]
+    if samples:
+        cases = [wire.dec(wire.enc(c)) for c, _ in samples]
+        body = ('From Coq Require Import List ZArith Bool.\nImport ListNotations.\nRequire Import Base.Wire.\nRequire %s.Model.\n'
+                'Definition cases : list value := [%s].\nDefinition expected : list value := [%s].\n'
+                'Definition agree := forallb (fun p => value_eqb (%s.Model.run (fst p)) (snd p)) (combine cases expected).\n'
+                'Eval vm_compute in (agree, length cases).\n'
+                % (pid, ';\n '.join(to_coq(c) for c in cases), ';\n '.join(to_coq(o) for _, o in samples), pid))
+        path = os.path.join(coq, pid, 'Zcross_%d.v' % os.getpid())
+        try:
+            with open(path, 'w') as f:
+                f.write(body)
+            p = subprocess.run(['bash', '-c', 'ulimit -s unlimited 2>/dev/null; exec timeout 900 coqc "$@"', 'coqc'] + flags + [path],
+                               cwd=coq, stdout=subprocess.PIPE, stderr=subprocess.STDOUT, text=True)
+            ok = p.returncode == 0 and '= (true, %d' % len(cases) in p.stdout.replace('\n', ' ')
+            out['cross'] = {'cases': len(cases), 'agree': ok}
+            if not ok:
+                out['broken'].append('vm_compute cross-check of the extracted binary failed: ' + p.stdout[-600:])
+        finally:
+            for ext in ('.v', '.vo', '.vok', '.vos', '.glob'):
+                try:
+                    os.remove(path[:-2] + ext)
+                except OSError:
+                    pass
+            try:
+                os.remove(os.path.join(coq, pid, '.Zcross_%d.aux' % os.getpid()))
+            except OSError:
+                pass
+    p = subprocess.run(['timeout', '1500', 'coqchk', '-silent', '-o'] + flags + ['%s.Props' % pid], cwd=coq,
+                       stdout=subprocess.PIPE, stderr=subprocess.STDOUT, text=True)
+    txt = p.stdout
+    out['coqchk'] = {'rc': p.returncode, 'report': txt[txt.find('CONTEXT SUMMARY'):][:3000] if 'CONTEXT SUMMARY' in txt else txt[-1500:]}
+    if p.returncode != 0:
+        out['broken'].append('coqchk rejected %s.Props: %s' % (pid, txt[-600:]))
+    return out
 
 
 def main(argv):
@@ -202,6 +263,11 @@ def main(argv):
             known_lines.append('KNOWN-FINDING: property=%s %s: %s (witness passes; %d other inputs of the class fail)'
                                % (pid, kf['id'], kf['what'], len(known[kf['id']])))
 
+    thorough_extra = {}
+    if tier == 'thorough' and b['model_ok'] and pr['ok']:
+        thorough_extra = thorough_checks(pid, ctx)
+        for x in thorough_extra.get('broken', []):
+            broken.append(x)
     theorems = pr.get('theorems', [])
     declared = pr.get('declared', [])
     obligations = max(len(declared), 1)
@@ -220,6 +286,9 @@ def main(argv):
         'known_findings_reported': [l for l in known_lines], 'notes': ctx.notes,
         'explanation': getattr(mod, 'EXPLANATION', ''),
     }
+    if thorough_extra:
+        cov['coqchk_axioms'] = thorough_extra.get('coqchk')
+        cov['vm_compute_crosscheck'] = thorough_extra.get('cross')
     viol_lines = []
     rc = 0
     stamp = '%s_%d' % (pid, int(time.time()))
